@@ -123,16 +123,28 @@ CaseCtx cx;
 
 void compare_events(const char *what)
 {
+    // the property fixes WHAT happens during an operation (which blocks are cleared / freed / allocated) and
+    // that a block's clear callback precedes its free; it does not fix the order of independent events
     std::vector<Ev> o = observed();
-    bool ok = o.size() == g_pred.size();
-    for (size_t i = 0; ok && i < o.size(); i++) {
-        if (o[i].kind != g_pred[i].kind) ok = false;
-        else if (o[i].kind == 'm' || o[i].kind == 'x') {
-            // bookkeeping block: any size below 1000; managed block: exact size
-            if (g_pred[i].sz >= 1000 ? o[i].sz != g_pred[i].sz : o[i].sz >= 1000) ok = false;
-        } else if (o[i].p != g_pred[i].p) ok = false;
-    }
+    auto norm = [](const Ev &e) {
+        Ev n = e;
+        if (n.kind == 'm' || n.kind == 'x') { n.p = nullptr; if (n.sz < 1000) n.sz = 1; }   // bookkeeping: any size below 1000
+        else n.sz = 0;
+        return n;
+    };
+    auto key = [](const Ev &a, const Ev &b) { return a.kind != b.kind ? a.kind < b.kind : a.p != b.p ? a.p < b.p : a.sz < b.sz; };
+    std::vector<Ev> a, b;
+    for (auto &e : o) a.push_back(norm(e));
+    for (auto &e : g_pred) b.push_back(norm(e));
+    std::sort(a.begin(), a.end(), key);
+    std::sort(b.begin(), b.end(), key);
+    bool ok = a.size() == b.size();
+    for (size_t i = 0; ok && i < a.size(); i++) ok = a[i].kind == b[i].kind && a[i].p == b[i].p && a[i].sz == b[i].sz;
     CHECK(ok, CL("events"), "%s: observed events [%s] differ from the predicted [%s]", what, evstr(o).c_str(), evstr(g_pred).c_str());
+    for (size_t i = 0; i < o.size(); i++)
+        if (o[i].kind == 'f')
+            for (size_t j = i + 1; j < o.size(); j++)
+                CHECK(!(o[j].kind == 'c' && o[j].p == o[i].p), CL("clear_before_free"), "%s: memory %p was freed before its clear callback ran", what, o[i].p);
 }
 
 void audit(int ns, int nw, int nu)
@@ -182,16 +194,19 @@ void apply(int op, uint8_t a, uint8_t b, int ns, int nw, int nu)
         LIB(cstl_shared_ptr_alloc(&SP[i], sz, clr ? clr_cb : nullptr));
         // what the allocator did decides the outcome (faults / limit): read it from the log
         std::vector<Ev> o = observed();
-        std::vector<Ev> allocs;
-        for (auto &e : o) if (e.kind == 'm' || e.kind == 'x') allocs.push_back(e);
-        bool ok1 = !allocs.empty() && allocs[0].kind == 'm';
-        bool ok2 = allocs.size() >= 2 && allocs[1].kind == 'm';
-        if (allocs.empty() || allocs[0].kind == 'x') g_pred.push_back({'x', nullptr, 1});
-        else {
-            g_pred.push_back({'m', nullptr, 1});
-            if (ok2) g_pred.push_back({'m', nullptr, sz});
-            else { g_pred.push_back({'x', nullptr, sz}); g_pred.push_back({'f', allocs[0].p, 0}); }
+        // the bookkeeping block is the request below 1000 bytes, the managed block the one of sz bytes (any order)
+        Ev book{0, nullptr, 0}, man{0, nullptr, 0};
+        for (auto &e : o) if (e.kind == 'm' || e.kind == 'x') { if (e.sz >= 1000) man = e; else book = e; }
+        bool ok1 = book.kind == 'm', ok2 = man.kind == 'm';
+        if (book.kind) g_pred.push_back({book.kind, nullptr, 1});
+        if (man.kind) g_pred.push_back({man.kind, nullptr, sz});
+        if (!(ok1 && ok2)) {
+            // whichever block was obtained must be given back; at least one request must have been refused
+            if (ok1) g_pred.push_back({'f', book.p, 0});
+            if (ok2) g_pred.push_back({'f', man.p, 0});
+            if (!book.kind && !man.kind) g_pred.push_back({'x', nullptr, 1});
         }
+        std::vector<Ev> allocs = {book, man};
         (void)pre;
         TRACE("S%d alloc(%zu%s)%s -> %s", i, sz, clr ? ", clr" : "", occupied ? " [occupied]" : "", ok1 && ok2 ? "ok" : "allocation failed: empty");
         if (ok1 && ok2) {
